@@ -7,7 +7,7 @@ from checks.uper_common import ASSUMPTIONS, TRUSTED
 class Spec(runner.Spec):
     prop = "C03"
     # `consts`: the descriptor constants the codec sees, re-derived from the ASN.1 source of the zoo
-    streams = [uper_streams.Shapes(), uper_streams.DescConsistency(), consts_stream.ConstsFromSource("C03")]
+    streams = [uper_streams.Shapes(), uper_streams.SpecDecode(), uper_streams.DescConsistency(), consts_stream.ConstsFromSource("C03")]
     assumptions = ASSUMPTIONS + ["the property quantifies over source schemas, the codec sees descriptors: stream `consts` compares every zoo type's descriptor constants with an expectation derived from the ASN.1 text by tools/consts_stream.py (own parser) and with Codegen/ConstsModel.lean; recorded deviations of the generator (findings of C08) are accepted as coded"]
     # Props/Scope.lean: the faithful model of the Scope state machine (Uper/Scope.lean) refines the
     # compositional mirror; the driver answers every request with both and reports `scope-mismatch`
